@@ -182,6 +182,11 @@ func (c15Engine) Run(raw json.RawMessage) (interface{}, error) {
 		return nil, err
 	}
 	n := pgs.Name(in.S.String())
+	// history: a conversion with a custom transformer (public API) on the empty name and on this
+	// name must leave nothing behind that a later Split or conversion can see
+	mark := pgs.NameTransformer(func(s string) string { return "_" + s + "!" })
+	_ = pgs.Name("").Transform(mark, mark, "")
+	_ = n.Transform(mark, mark.Chain(strings.ToUpper), "~")
 	obs := c15Obs{Parts: [][]int{}, Conv: [][]int{}}
 	for _, p := range n.Split() {
 		obs.Parts = append(obs.Parts, runesOf(p))
